@@ -170,3 +170,16 @@ func TestRegressC20(t *testing.T) {
 	}
 	rec.Done()
 }
+
+// F17 (C06): cannot-start pod without startTime, maxSlowStartDuration set.
+func TestRegressC06(t *testing.T) {
+	rec := evid.New("TestRegressC06", "C06", "saved case of the fixed C06 defect (cannot-start canary pod whose status has no startTime)")
+	for _, wait := range []string{"ImagePullBackOff", "ContainerCreating"} {
+		k := c06Case{PauseEnabled: true, FailEnabled: true, P: 2, F: 2, MaxSlowStart: 2 * time.Minute, CanaryAge: -1, PriorRestartSpan: -1, PriorRestartAgo: 10 * time.Minute}
+		k.Pods[0] = c06Pod{Present: true, StartedAgo: 2 * time.Minute, Containers: []c06Container{{Restarts: 0}}}
+		k.Pods[2] = c06Pod{Present: true, StartedAgo: -1, Containers: []c06Container{{Restarts: 0, Waiting: wait}}}
+		vs, _, err := runC06(k)
+		regress(t, rec, "F17-no-start-time/"+wait, vs, err, k.String())
+	}
+	rec.Done()
+}
